@@ -364,6 +364,8 @@ func init() {
 		[]Stage{bfs("lsm", 5, 40, prm("oracle", "c12", "keys", 2, "inmemory", true, "nofiles", true)), bfs("lsm", 5, 40, prm("oracle", "c12", "mode", "normal", "keys", 2, "inmemory", true, "nofiles", true, "sync_writes", true, "ops", "Sa Sb Da F C0 C1 O X")),
 			// a backup taken from an on-disk database (values in its value log) loaded into an InMemory one
 			en("c24seq", 16, 40, prm("len", 2)),
+			// values at the threshold: one transaction / one incremental stream write of 1, 8, 30 values of threshold-1, threshold, threshold+1 bytes, on disk and in memory
+			en("c37thr", 6, 30, nil),
 			// drops in memory: same model as the on-disk C29 search
 			bfs("lsm", 4, 40, prm("oracle", "c29", "mode", "normal", "keyset", "drop", "keys", 4, "drops", true, "snapshots", false, "l0_tables", 1, "inmemory", true, "nofiles", true, "ops", "Sp1a Sp2a Sq Dp1a F C0 Yp1 Yp Yp1,q Yzz V"))},
 		[]Stage{bfs("lsm", 6, 600, prm("oracle", "c12", "keys", 2, "inmemory", true, "nofiles", true)), bfs("lsm", 6, 600, prm("oracle", "c12", "mode", "normal", "keys", 2, "inmemory", true, "nofiles", true, "ops", "Sa Sb Da Db F C0 C1 O X A")),
